@@ -332,7 +332,8 @@ func (w *world) doOp(f []string) string {
 			}
 			w.taken = nil
 		}
-		v.AddReads(u(f[1]), u(f[2]))
+		lo, hi := w.ctx(f[1], f[2]) // a ctx named after one that handleReadIndex drew is that ctx
+		v.AddReads(lo, hi)
 	case "HR":
 		// the real node.handleReadIndex: queue get, fresh ctx (random low, high = tick+30), add, raft ReadIndex
 		if v.Taken() > 0 {
